@@ -47,7 +47,29 @@ class Facts:
                         return self._cmp_facts(ci["pred"], a2, b2, truth)
             return [], []
         if i.op != "icmp": return [], []
+        if i["pred"] not in ("eq", "ne") and not getattr(self, "assume_no_wrap", False):
+            # an unsigned `x - k` that can wrap (x may be smaller than k here) does not compare like the mathematical difference:
+            # `count - 1 > limit - 1` says nothing when limit can be 0
+            for o in i.ops:
+                if self._sub_may_wrap(o, i.block): return [], []
         return self._cmp_facts(i["pred"], i.ops[0], i.ops[1], truth)
+
+    def _sub_may_wrap(self, o, block):
+        fn = self.fn
+        for _ in range(3):
+            if o["k"] == "inst" and fn.imap[o["v"]].op in ("zext", "trunc"): o = fn.imap[o["v"]].ops[0]
+        if o["k"] != "inst": return False
+        x = fn.imap[o["v"]]
+        k = None
+        if x.op == "add" and x.ops[1]["k"] == "int" and int(x.ops[1]["sv"]) < 0: k = -int(x.ops[1]["sv"])
+        elif x.op == "sub" and x.ops[1]["k"] == "int" and int(x.ops[1]["sv"]) > 0: k = int(x.ops[1]["sv"])
+        if k is None: return False
+        from .ival import Intervals
+        iv = self.__dict__.get("_wiv")
+        if iv is None: iv = self._wiv = Intervals(fn, None, self.fi)
+        try: (lo, hi), _ex = iv.ival_at(x.ops[0], block)
+        except RecursionError: return False
+        return lo < k
 
     def _cmp_facts(self, pred, a_op, b_op, truth):
         fi = self.fi
